@@ -265,7 +265,7 @@ def isolated_run_one(mod, case: dict, timeout: float) -> dict:
         got, _ = os.waitpid(pid, os.WNOHANG)
         if got:
             break
-        if time.time() - t0 > timeout + 20 or rss_of_tree(pid) > 6 * 2**30:
+        if time.time() - t0 > timeout + 3 or rss_of_tree(pid) > 6 * 2**30:
             kill_tree(pid)
             os.waitpid(pid, 0)
             os.close(r)
@@ -300,7 +300,11 @@ def minimise(mod, vio: dict, budget_s: float, case_timeout: float) -> dict:
             cand["_sub_seed"] = best["case"].get("_sub_seed")
             cand["_index"] = best["case"].get("_index")
             cand["_minimised"] = True
-            res = isolated_run_one(mod, cand, min(case_timeout, 60.0))
+            # never let one slow candidate (a hang the watchdogs of the case
+            # wait for) carry the minimiser past its budget
+            res = isolated_run_one(
+                mod, cand, max(3.0, min(case_timeout, 60.0,
+                                        deadline - time.time())))
             if (not res.get("ok", True) and not res.get("harness_error") and
                     res.get("vclass") == best["vclass"] and
                     (res.get("key") or {}) == (best.get("key") or {})):
